@@ -67,6 +67,7 @@ func init() {
 		ID: "C12",
 		Runs: []hrun{
 			{Pkg: wtxmgrPkg, Fn: "ZzC12MinedL2", Tiers: "qt", Reach: []string{"c12-end", "leased", "lock-conflict", "lock-extended", "unlock-conflict", "unlocked", "swept", "confirmed-spend", "lock-unknown"}, Bound: "A confirmed with two credits, B spends A:0; 2 events from {see/mine/rollback/abandon, lock(op,id,duration in {0,1ns,1s,10min}), unlock(op,id), clock advance, sweep, restart}; clock seconds and nanoseconds symbolic"},
+			{Pkg: wtxmgrPkg, Fn: "ZzC12LeasedP1L2", Tiers: "qt", Reach: []string{"c12-end", "leased", "confirmed-spend", "lock-conflict", "unlocked"}, Bound: "A confirmed, A:0 leased to id1 for ten minutes (fixed preamble), then 2 free events (e.g. an unconfirmed spend of the leased output and its removal, a confirmed spend, a second identifier)"},
 			{Pkg: wtxmgrPkg, Fn: "ZzC12Tick", Tiers: "qt", Reach: []string{"c12-end"}, Bound: "one leased confirmed output (lease of 1 s or 10 min); Balance computed while the clock moves from t1 to t2 >= t1 (both symbolic, possibly across the expiry) after 0..3 clock readings; the answer must be the answer for t1 or for t2"},
 			{Pkg: wtxmgrPkg, Fn: "ZzC12UnminedL3", Tiers: "t", Reach: []string{"c12-end", "leased"}, Bound: "A unconfirmed, 3 events"},
 			{Pkg: wtxmgrPkg, Fn: "ZzC12MinedL3", Tiers: "t", Reach: []string{"c12-end", "leased"}, Bound: "A confirmed, 3 events"},
@@ -153,13 +154,17 @@ func init() {
 			{Pkg: chainPkg, Fn: "ZzC18K3B1", Tiers: "qt", Reach: []string{"c18-end", "producer-finished-without-consumer"}, Bound: "3 items, buffer 1"},
 			{Pkg: chainPkg, Fn: "ZzC18K3B1Take1", Tiers: "qt", Reach: []string{"c18-end"}, Bound: "3 items, buffer 1, consumer takes 1 then Stop with items pending"},
 			{Pkg: chainPkg, Fn: "ZzC18StepSmall", Tiers: "qt", Reach: []string{"c18-end", "overflow-non-empty"}, Bound: "worker started from every state with capacity<=1, overflow<=2, then <=1 send and any number of receives, all schedules"},
+			{Pkg: chainPkg, Fn: "ZzC18BtcdK3", Tiers: "qt", NoNative: true, Sched: true, Reach: []string{"c18-end", "producer-finished-without-consumer"}, Bound: "the notification queue inside the btcd client (real RPCClient.handler goroutine): a producer goroutine sends 3 notifications while the consumer receives, every interleaving with at most 2 preemptions; then Stop"},
+			{Pkg: chainPkg, Fn: "ZzC18NeutrinoK3", Tiers: "qt", NoNative: true, Sched: true, Reach: []string{"c18-end", "producer-finished-without-consumer"}, Bound: "the same for the neutrino client (real NeutrinoClient.notificationHandler goroutine)"},
+			{Pkg: chainPkg, Fn: "ZzC18BtcdBurst", Tiers: "qt", NoNative: true, Sched: true, Reach: []string{"c18-end", "more-than-32-pending"}, Bound: "btcd client handler, one schedule (no preemptive switches): send 5, receive 3, send 36 (38 pending), receive 10, send 20, drain: 61 notifications in order"},
+			{Pkg: chainPkg, Fn: "ZzC18NeutrinoBurst", Tiers: "qt", NoNative: true, Sched: true, Reach: []string{"c18-end", "more-than-32-pending"}, Bound: "neutrino client handler, the same burst pattern"},
 			{Pkg: chainPkg, Fn: "ZzC18K4B1", Tiers: "t", Reach: []string{"c18-end"}, Bound: "4 items, buffer 1"},
 			{Pkg: chainPkg, Fn: "ZzC18K4B2", Tiers: "t", Reach: []string{"c18-end"}, Bound: "4 items, buffer 2"},
 			{Pkg: chainPkg, Fn: "ZzC18K4B0Take2", Tiers: "t", Reach: []string{"c18-end"}, Bound: "4 items, buffer 0, consumer takes 2"},
 			{Pkg: chainPkg, Fn: "ZzC18Step", Tiers: "t", Reach: []string{"c18-end", "overflow-non-empty"}, Bound: "worker started from every state with capacity<=2, overflow<=3, then <=2 sends, all schedules"},
 		},
 		Assume:  []string{"cooperative scheduler: context switches at channel operations and selects only; the default branch of a non-blocking select and the arrival order of operations on the channels such selects mention are scheduling choices (sched.go); items are symbolic but the order property does not depend on their values"},
-		Outside: "more than 4 items in flight, buffers larger than 2, several producers or consumers; interleavings are enumerated exhaustively (structural forks), the solver only supplies item values",
+		Outside: "ConcurrentQueue: more than 4 items in flight, buffers larger than 2, several producers or consumers; client handlers: GetBestBlock and the rpc client's shutdown are stubbed, backlogs other than the listed burst pattern; interleavings are enumerated exhaustively (structural forks), the solver only supplies item values",
 	})
 	reg(&propDef{
 		ID: "C16",
@@ -239,6 +244,8 @@ func init() {
 			{Pkg: waddrmgrPkg, Fn: "ZzC08ImportedL2", Tiers: "qt", Reach: []string{"c08-end", "imported-account", "rolled-back"}, Bound: "the same 7 operations on an imported extended-public-key account that already has 2 external and 1 internal address, histories of 2 transactions"},
 			{Pkg: waddrmgrPkg, Fn: "ZzC08Retry0", Tiers: "qt", Reach: []string{"c08-end", "retry-agrees", "rolled-back", "commit-failed"}, Bound: "each of the 7 operations in a transaction that does not commit (rolled back or failing at commit), then the same request again in a committed transaction: afterwards running and freshly opened manager agree"},
 			{Pkg: waddrmgrPkg, Fn: "ZzC08Retry1", Tiers: "qt", Reach: []string{"c08-end", "retry-agrees"}, Bound: "the same after one committed operation"},
+			{Pkg: waddrmgrPkg, Fn: "ZzC08Batch0", Tiers: "qt", Reach: []string{"c08-end", "batch-committed", "batch-agrees"}, Bound: "ONE committed transaction holding two of the 7 operations (every ordered pair), then fresh Open compared"},
+			{Pkg: waddrmgrPkg, Fn: "ZzC08Batch1", Tiers: "qt", Reach: []string{"c08-end", "batch-committed", "batch-agrees"}, Bound: "the same after one committed operation"},
 			{Pkg: waddrmgrPkg, Fn: "ZzC08L3", Tiers: "t", Reach: []string{"c08-end", "rolled-back", "commit-failed"}, Bound: "histories of 3 transactions"},
 		},
 		Assume:  mgrAssume,
@@ -282,7 +289,7 @@ func init() {
 		Runs: []hrun{
 			{Pkg: walletPkg, Fn: "ZzC20Publish", Tiers: "qt", Reach: []string{"c20-end", "recorded", "failed", "already-known"}, Bound: "funded wallet (one confirmed credit, symbolic amount); one send; backend answer from {accepted, already in mempool, already known, already confirmed, rejected (unclassified error or a SYMBOLIC chain.RPCErr reject code: every value except the three 'have it already' codes, decided by the solver), subscription failure}; balance compared for symbolic minconf 0..10"},
 			{Pkg: walletPkg, Fn: "ZzC20PublishChained", Tiers: "qt", Reach: []string{"c20-end", "chained", "failed"}, Bound: "same with an earlier unconfirmed send whose change is spent"},
-			{Pkg: walletPkg, Fn: "ZzC20Resend", Tiers: "qt", Reach: []string{"c20-end", "resent", "resend-rejected"}, Bound: "unconfirmed parent and child; resendUnminedTxs with acceptance or rejection of the parent"},
+			{Pkg: walletPkg, Fn: "ZzC20Resend", Tiers: "qt", Reach: []string{"c20-end", "resent", "resend-rejected"}, Bound: "unconfirmed parent and child; resendUnminedTxs with acceptance or rejection of the parent; after acceptance a second resynchronisation offers both again"},
 			{Pkg: walletPkg, Fn: "ZzC20ResendMany", Tiers: "qt", Reach: []string{"c20-end", "some-rejected", "classified-rejection"}, Bound: "three unconfirmed transactions (parent, child, independent one); on rebroadcast each is accepted or rejected independently, the reject code symbolic over every reason the chain package knows"},
 		{Pkg: walletPkg, Fn: "ZzC20ResendIncoming", Tiers: "qt", Reach: []string{"c20-end", "resent", "some-rejected", "classified-rejection"}, Bound: "four unconfirmed wallet transactions: an incoming payment R (no wallet inputs), C spending R's output, a send X whose payment goes to a stranger, S spending that stranger's output back to the wallet (linked to X only through a non-credit output); on rebroadcast R and X are accepted or rejected independently (symbolic reject code)"},
 		},
@@ -324,7 +331,7 @@ func init() {
 	reg(&propDef{
 		ID: "C11",
 		Runs: []hrun{
-			{Pkg: bdbPkg, Fn: "ZzC11T2O1", Tiers: "qt", Sched: true, Witnesses: 12, Reach: []string{"c11-end", "committed", "aborted", "panicked", "empty-value"}, Bound: "2 managed updates (committed, failed or panicking) of 1 operation each from {put top/nested, delete, delete nested bucket, sequence, incompatible put/create} over keys a,b,c with symbolic 2-byte, empty or nil values; full read-back (cursor both ways, Get, Seek, nested bucket, read-only writes) after each and after reopen"},
+			{Pkg: bdbPkg, Fn: "ZzC11T2O1", Tiers: "qt", Sched: true, Witnesses: 12, Reach: []string{"c11-end", "committed", "aborted", "panicked", "empty-value", "view-failed", "view-panicked"}, Bound: "2 managed updates (committed, failed or panicking) of 1 operation each from {put top/nested, delete, delete nested bucket, sequence, incompatible put/create} over keys a,b,c with symbolic 2-byte, empty or nil values; full read-back (cursor both ways, Get, Seek, nested bucket, read-only writes) after each; finally a View that succeeds, fails or panics, then close (which waits for open transactions) and reopen"},
 			{Pkg: bdbPkg, Fn: "ZzC11T1O2", Tiers: "qt", Sched: true, Witnesses: 12, Reach: []string{"c11-end", "committed", "aborted", "panicked"}, Bound: "1 update of 2 operations"},
 			{Pkg: bdbPkg, Fn: "ZzC11T2O2", Tiers: "t", Sched: true, Witnesses: 24, Reach: []string{"c11-end"}, Bound: "2 updates of 2 operations"},
 			{Pkg: bdbPkg, Fn: "ZzC11T3O1", Tiers: "t", Sched: true, Witnesses: 24, Reach: []string{"c11-end"}, Bound: "3 updates of 1 operation"},
